@@ -26,6 +26,9 @@ TB = [
     "the pairwise functions themselves (similarity, containment, ANI) are NOT the subject of C16 (C05 / C17): C16 is the placement",
 ]
 AS = [
+    "`sourmash compare --from-file`: load_pathlist_from_file() returns a set, so the listed files are compared in hash order (it differs "
+    "from run to run), not in list order; matrix and labels stay consistent with each other (not a violation: the check reads the order "
+    "actually used back from the --labels-to CSV and counts these runs in the evidence)",
     "1..25 signatures per list (the empty list and n_jobs = 0 are generated occasionally and compared with the model, but lie outside "
     "the property's quantifier: compare_parallel([]) raises ValueError, compare_serial([]) returns a 0x0 matrix - theorem empty_list_differs)",
     "`ANI is None` is stored as 0.0 by every builder (modelled: aniOrZero); the oracle accepts 0.0 as the matrix encoding of a withheld estimate",
@@ -44,28 +47,37 @@ RULE = ("lists of 1..25 compatible scaled signatures (flat / abundance / mixed, 
 
 
 def extra(chk, pkg):
-    """thorough tier: `sourmash compare` CLI with -o / --csv / --labels-to, reload, compare with the API matrices"""
-    if chk.tier != "thorough":
-        return
+    """CLI tier: `sourmash compare` with every measure switch, -p N (np_utils.to_memmap), --from-file, -o / --csv / --labels-to,
+    and the reload of what was saved through `sourmash plot` (labels.txt and --labels-from).
+    quick: two small runs whose signature names carry leading / trailing whitespace, tabs or a newline;
+    thorough: 40 full runs (each twice, on a permutation of the files) + 6 of the label runs."""
     import json
     import subprocess
     import tempfile
     tmp_root = os.path.join(common.BUILD, "tmp")
     os.makedirs(tmp_root, exist_ok=True)
     env = dict(os.environ, PYTHONPATH=pkg + os.pathsep + os.path.join(common.VERIF, "harness"), PYTHONHASHSEED="0")
-    n_runs = int(os.environ.get("VERIF_C16_CLI", "40"))
-    with tempfile.TemporaryDirectory(prefix="c16cli-", dir=tmp_root) as td:
-        r = subprocess.run([common.PY, os.path.join(common.VERIF, "harness", "adapters", "compare_cli.py"), td, str(chk.seed), str(n_runs)],
-                           env=env, stdout=subprocess.PIPE, stderr=subprocess.PIPE, text=True, timeout=3000)
-        if r.returncode != 0:
-            chk.exit_tool("compare_cli.py failed: " + r.stderr[-1500:])
-        rep = json.loads(r.stdout)
-    chk.cov["cli_runs"] = rep["runs"]
-    chk.cov["cli_checked_cells"] = rep["cells"]
-    chk.cov["cli_runs_where_a_pairwise_value_is_refused_and_the_command_fails_too"] = rep.get("pairwise_refused", 0)
-    chk.cov["evaluations"] += rep["runs"]
-    for v in rep["violations"]:
-        chk.add_violation("oracle", v["signature"], v["what"], v)
+    plans = [(int(os.environ.get("VERIF_C16_CLI_LABELS", "6" if chk.tier == "thorough" else "2")), ["labels"])]
+    if chk.tier == "thorough":
+        plans.append((int(os.environ.get("VERIF_C16_CLI", "40")), []))
+    tot = {"runs": 0, "cells": 0, "plot_reloads": 0, "from_file_reordered": 0, "pairwise_refused": 0}
+    for n_runs, mode in plans:
+        with tempfile.TemporaryDirectory(prefix="c16cli-", dir=tmp_root) as td:
+            r = subprocess.run([common.PY, os.path.join(common.VERIF, "harness", "adapters", "compare_cli.py"), td, str(chk.seed), str(n_runs)] + mode,
+                               env=env, stdout=subprocess.PIPE, stderr=subprocess.PIPE, text=True, timeout=3000)
+            if r.returncode != 0:
+                chk.exit_tool("compare_cli.py failed: " + r.stderr[-1500:])
+            rep = json.loads(r.stdout)
+        for k in tot:
+            tot[k] += rep.get(k, 0)
+        for v in rep["violations"]:
+            chk.add_violation("oracle", v["signature"], v["what"], v)
+    chk.cov["cli_runs"] = tot["runs"]
+    chk.cov["cli_checked_cells"] = tot["cells"]
+    chk.cov["cli_plot_reloads"] = tot["plot_reloads"]
+    chk.cov["cli_from_file_runs_where_the_listed_files_were_compared_in_another_order"] = tot["from_file_reordered"]
+    chk.cov["cli_runs_where_a_pairwise_value_is_refused_and_the_command_fails_too"] = tot["pairwise_refused"]
+    chk.cov["evaluations"] += tot["runs"]
 
 
 if __name__ == "__main__":
